@@ -40,6 +40,119 @@ pub fn c04_class(s: &Summary) -> (bool, String) {
     (s.rw_antidep, class)
 }
 
+// ------------------------------------------------------------------------------------------------
+// Serializable commits from real threads
+// ------------------------------------------------------------------------------------------------
+
+/// Write-skew pairs committed concurrently: per round two overlapping Serializable transactions, T1 reads a / writes
+/// b, T2 reads b / writes a (a != b), both begun before either commits, released together by a spin rendezvous and
+/// committed from two threads. Under every interleaving of the two commits at most one may be acknowledged (the
+/// second committer read an entity the first one wrote and committed after the reader began); the refusal must be a
+/// serialization failure. `extra` retained transactions lengthen validation; a third thread may call gc().
+#[derive(Debug, Clone, serde::Serialize, serde::Deserialize)]
+pub struct SkewCase {
+    pub rounds: u16,
+    pub extra: u8,
+    pub with_gc: bool,
+}
+
+fn skew_strategy(max_rounds: u16) -> impl Strategy<Value = SkewCase> {
+    (max_rounds / 2..=max_rounds, 0u8..40, any::<bool>()).prop_map(|(rounds, extra, with_gc)| SkewCase { rounds, extra, with_gc })
+}
+
+fn check_skew(c: &SkewCase) -> crate::driver::CaseResult {
+    use grafeo_common::types::NodeId;
+    use grafeo_engine::transaction::{IsolationLevel, TransactionManager};
+    use std::sync::Arc;
+    use std::sync::atomic::{AtomicBool, AtomicUsize, Ordering};
+    let tm = Arc::new(TransactionManager::new());
+    // history that validation has to walk
+    let _pin = tm.begin(); // a long-running reader keeps earlier commits retained across gc
+    for i in 0..c.extra {
+        let t = tm.begin();
+        let _ = tm.record_write(t, NodeId::new(1000 + u64::from(i)));
+        let _ = tm.commit(t);
+    }
+    let stop = Arc::new(AtomicBool::new(false));
+    let gc_thread = if c.with_gc {
+        let tm = Arc::clone(&tm);
+        let stop = Arc::clone(&stop);
+        Some(std::thread::spawn(move || {
+            while !stop.load(Ordering::Relaxed) {
+                tm.gc();
+                std::thread::yield_now();
+            }
+        }))
+    } else {
+        None
+    };
+    let mut both = None;
+    let mut refused_wrong_kind = None;
+    let mut neither = 0u32;
+    for round in 0..c.rounds {
+        let (a, b) = (NodeId::new(u64::from(round) * 2), NodeId::new(u64::from(round) * 2 + 1));
+        let t1 = tm.begin_with_isolation(IsolationLevel::Serializable);
+        let t2 = tm.begin_with_isolation(IsolationLevel::Serializable);
+        let prep = tm.record_read(t1, a).and(tm.record_write(t1, b)).and(tm.record_read(t2, b)).and(tm.record_write(t2, a));
+        if let Err(e) = prep {
+            stop.store(true, Ordering::Relaxed);
+            return crate::driver::fail("c04/ssi_threads/record-refused", format!("{e}"));
+        }
+        let ready = Arc::new(AtomicUsize::new(0));
+        let spawn = |tx, tm: Arc<TransactionManager>, ready: Arc<AtomicUsize>| {
+            std::thread::spawn(move || {
+                ready.fetch_add(1, Ordering::SeqCst);
+                let mut spins = 0u32;
+                while ready.load(Ordering::SeqCst) < 2 && spins < 5_000_000 {
+                    std::hint::spin_loop();
+                    spins += 1;
+                }
+                tm.commit(tx).map(|e| e.as_u64()).map_err(|e| format!("{e}"))
+            })
+        };
+        let h1 = spawn(t1, Arc::clone(&tm), Arc::clone(&ready));
+        let h2 = spawn(t2, Arc::clone(&tm), Arc::clone(&ready));
+        let (r1, r2) = (h1.join(), h2.join());
+        let (Ok(r1), Ok(r2)) = (r1, r2) else {
+            stop.store(true, Ordering::Relaxed);
+            return crate::driver::fail("c04/ssi_threads/panic", "a committing thread panicked");
+        };
+        match (&r1, &r2) {
+            (Ok(e1), Ok(e2)) => {
+                if both.is_none() {
+                    both = Some((round, *e1, *e2));
+                }
+            }
+            (Err(_), Err(_)) => neither += 1,
+            (Ok(_), Err(e)) | (Err(e), Ok(_)) => {
+                if !(e.to_lowercase().contains("serializ") || e.to_lowercase().contains("read-write")) && refused_wrong_kind.is_none() {
+                    refused_wrong_kind = Some((round, e.clone()));
+                }
+            }
+        }
+        for t in [t1, t2] {
+            let _ = tm.abort(t); // a refused transaction stays Active: close it
+        }
+    }
+    stop.store(true, Ordering::Relaxed);
+    if let Some(h) = gc_thread {
+        let _ = h.join();
+    }
+    if let Some((round, e1, e2)) = both {
+        return crate::driver::fail(
+            "c04/ssi_threads/write-skew-admitted",
+            format!("round {round}: both transactions of a write-skew pair committed concurrently (epochs {e1} and {e2}); {} rounds, {} retained commits, gc thread {}", c.rounds, c.extra, c.with_gc),
+        );
+    }
+    if neither > 0 {
+        return crate::driver::fail("c04/ssi_threads/both-refused", format!("{neither} rounds in which neither transaction of the pair committed"));
+    }
+    if let Some((round, e)) = refused_wrong_kind {
+        return crate::driver::fail("c04/ssi_threads/refusal-kind", format!("round {round}: refused with {e}"));
+    }
+    ok(c.rounds >= 2, if c.with_gc { "with-gc" } else { "no-gc" }, crate::driver::hash_dbg(c))
+}
+
 pub fn run(r: &mut Run) {
     r.level = "exploration";
     r.rule = "tm_histories: random TransactionManager histories with reads (<=6 transactions, <=4 entities, <=25/60 steps; 70% all \
@@ -95,4 +208,8 @@ pub fn run(r: &mut Run) {
     }
 
     sessions::run_c04(r);
+
+    // the same validation under real concurrency (sampled): write-skew pairs committed from two threads at once
+    let rounds = if r.is_thorough() { 2000 } else { 400 };
+    r.subcheck("ssi_threads", r.cases(64, 2000), move || skew_strategy(rounds), check_skew);
 }
